@@ -399,3 +399,56 @@ Section SimProofs.
       unfold shiftv. unfold after_ok. cbn [s_shift]. fold (shiftv s). rewrite add_shift_v. lra.
     - unfold Simulator.prior_t_end. rewrite Hv, last_row_snoc. reflexivity.
   Qed.
+
+  Lemma reached_prior s r : prior_t_end s = Some r -> reached s = r.
+  Proof. unfold Simulator.reached. intros ->. reflexivity. Qed.
+
+  Definition step_result (s : sim) (h : Q) (rest : list Q) : sim * outcome :=
+    if incrb (h :: rest)
+    then if solve_ok (s_mp s) h (i_y0 (s_int s)) (lastq rest h)
+         then (after_ok s h rest, Done)
+         else (after_fail s, Done)
+    else (s, RaisedValue).
+
+  (** ** simulate_time_course *)
+  Lemma tc_step (good : good_facts) s pts :
+    Inv s -> has_errors s = false -> pts <> [] ->
+    let r := reached s in
+    let rel := map (sub_shift (s_shift s)) (filter (fun t => Qle_bool r t) pts) in
+    (lastq pts 0 <= r -> simulate_time_course s pts = (s, RaisedValue)) /\
+    (r < lastq pts 0 ->
+       exists h rest, tp_eff (i_t0 (s_int s)) rel = h :: rest /\ h == i_t0 (s_int s) /\ rest <> []
+         /\ ((h = i_t0 (s_int s) /\ rest = rel /\ forall d, ~ hd d rel == i_t0 (s_int s)) \/ rel = h :: rest)
+         /\ simulate_time_course s pts = step_result s h rest).
+  Proof.
+    intros HI Herr Hne r rel.
+    destruct (Inv_prior s HI) as (r0 & Hpr & Hsync & Hincr & Hmax & Hnone & Hsome).
+    assert (Hr : r = r0) by (apply reached_prior; exact Hpr). subst r0.
+    unfold Simulator.simulate_time_course. rewrite Herr, Hpr.
+    destruct pts as [|p0 ps]; [congruence|].
+    rewrite (g_tc_frame good), (g_tc_cmp good), (g_tc_keep good), (g_skip_tc good).
+    cbn [framed fst snd cmpb].
+    rewrite (lastq_default (p0 :: ps) p0 0 Hne).
+    split.
+    - intro Hle. apply Qle_bool_iff in Hle. rewrite Hle. reflexivity.
+    - intro Hlt. assert (E : Qle_bool (lastq (p0 :: ps) 0) r = false) by (apply Qle_bool_false; exact Hlt).
+      rewrite E. fold r. fold rel.
+      destruct (filter_last (fun t => Qle_bool r t) (p0 :: ps) 0 Hne) as [Hkne Hklast].
+      { apply Qle_bool_iff. lra. }
+      assert (Hrelne : rel <> []).
+      { unfold rel. intro H. apply map_eq_nil in H. contradiction. }
+      assert (Hrellast : lastq rel (sub_shift (s_shift s) 0) == lastq (p0 :: ps) 0 - shiftv s).
+      { unfold rel. rewrite lastq_map, Hklast. apply sub_shift_v. }
+      destruct (tp_eff_shape (i_t0 (s_int s)) rel Hrelne) as (h & rest & Heff & Hh & Hsh).
+      assert (Hlt' : forall d, h < lastq rel d).
+      { intro d. rewrite (lastq_default rel d (sub_shift (s_shift s) 0) Hrelne). lra. }
+      assert (Hrest : rest <> [] /\ h < lastq rest h).
+      { destruct Hsh as [(-> & -> & _)|Hsh].
+        - split; [exact Hrelne|apply Hlt'].
+        - subst rel. rewrite Hsh in Hlt'. destruct rest as [|x rest'].
+          + specialize (Hlt' h). cbn in Hlt'. lra.
+          + split; [discriminate|]. specialize (Hlt' h). rewrite lastq_cons in Hlt' by discriminate. exact Hlt'. }
+      destruct Hrest as [Hrne Hhlt].
+      exists h, rest. split; [exact Heff|]. split; [exact Hh|]. split; [exact Hrne|]. split; [exact Hsh|].
+      apply (finish_itc s rel h rest Hrelne Heff Hrne Hhlt).
+  Qed.
